@@ -30,6 +30,10 @@ pub uninterp spec fn m6_set3(m: Matrix6, row: int, col: int, v: Vector3) -> Matr
 pub uninterp spec fn m6_is_inverse(g: Matrix6, m: Matrix6) -> bool;
 /// g is what SVD::pseudo_inverse(eps) returns for m
 pub uninterp spec fn m6_is_pinv(g: Matrix6, m: Matrix6, eps: f64) -> bool;
+/// what `try_inverse` returns for m (None: nalgebra found the matrix singular) - a deterministic function of the matrix
+pub uninterp spec fn try_inverse_s(m: Matrix6) -> Option<Matrix6>;
+/// what `SVD::new(m, true, true).pseudo_inverse(eps)` returns (None: an error) - a deterministic function of matrix and cut-off
+pub uninterp spec fn pinv_s(m: Matrix6, eps: f64) -> Option<Matrix6>;
 pub uninterp spec fn svd_of(s: SVD) -> Matrix6;
 pub uninterp spec fn quat_mul_s(a: UnitQuaternion, b: UnitQuaternion) -> UnitQuaternion;
 pub uninterp spec fn quat_inv_s(a: UnitQuaternion) -> UnitQuaternion;
@@ -54,7 +58,7 @@ impl Matrix6 {
         ensures forall|i: int, j: int| 0 <= i < 6 && 0 <= j < 6 ==> #[trigger] m6_at(r, i, j) == 0.0f64 { unimplemented!() }
     #[verifier::external_body]
     pub fn try_inverse(self) -> (r: Option<Matrix6>)
-        ensures r matches Some(g) ==> m6_is_inverse(g, self) { unimplemented!() }
+        ensures r == try_inverse_s(self), r matches Some(g) ==> m6_is_inverse(g, self) { unimplemented!() }
     #[verifier::external_body]
     pub fn transpose(&self) -> (r: Matrix6) ensures r == m6_transpose_s(*self) { unimplemented!() }
     /// rule S: `m.fixed_view_mut::<3, 1>(row, col).copy_from(&v)`: writes v into rows row..row+3 of column col
@@ -72,7 +76,8 @@ impl SVD {
     pub fn new(m: Matrix6, compute_u: bool, compute_v: bool) -> (r: SVD) ensures svd_of(r) == m { unimplemented!() }
     #[verifier::external_body]
     pub fn pseudo_inverse(self, eps: f64) -> (r: Result<Matrix6, &'static str>)
-        ensures r matches Ok(g) ==> m6_is_pinv(g, svd_of(self), eps) { unimplemented!() }
+        ensures r matches Ok(g) ==> m6_is_pinv(g, svd_of(self), eps) && pinv_s(svd_of(self), eps) == Some(g),
+            r is Err ==> pinv_s(svd_of(self), eps) is None { unimplemented!() }
 }
 impl core::ops::Mul<Vector6> for Matrix6 { type Output = Vector6; #[verifier::external_body] fn mul(self, rhs: Vector6) -> Vector6 { unimplemented!() } }
 impl MulSpecImpl<Vector6> for Matrix6 {
